@@ -64,8 +64,9 @@ CLAIMED = {
             "bounded model checking (binding scope): parameters are bound in order to the positional value, else the named value, else the default evaluated in the "
             "callee's argument scope after the parameters to its left; missing, too many and left-over named arguments are errors; the rest parameter takes what is left; "
             "splats, definition-site scoping, @return and @content are outside"),
-    "C21": ("E2", "symbolic execution of handle_item's @error arm and of the destination Drop impls (MIR)",
-            "bounded model checking (dispatch scope): @error always fails the compilation; the Drop impls always commit their content; "
+    "C21": ("E2", "symbolic execution of handle_item's @error arm, of the destination Drop impls and of their start_atmedia / start_atrule methods (MIR); z3 and cvc5",
+            "bounded model checking (dispatch scope): @error always fails the compilation; the Drop impls always commit their content; starting a nested @media / at-rule "
+            "never takes content out of the parent destination; "
             "one recorded finding (a commit error inside Drop is only printed, so content can be dropped silently)"),
     "C36": ("E2", "symbolic execution of handle_item's comment arm and of the @use/@forward module initialiser closures (MIR), obligations decided by z3 and cvc5",
             "bounded model checking (dispatch scope): which loud comments reach the output in which style, that the emitted text is the evaluated comment, and that a "
